@@ -32,7 +32,8 @@ CORE = ["AddFootnote", "AddEndnote", "RemoveFootnote", "AddListItem", "AddImage"
 FULL = CORE + ["AddFootnoteToRun", "RemoveEndnote", "RestartNumbering", "AddParagraph", "AddTable", "AddHeader", "AddFooter", "GenerateTOC",
                "SetPageMargins", "SetFootnoteConfig", "RenderTextTemplate", "ConvertMd", "Save", "Open"]
 SUBOPS = ["AddFootnote", "AddEndnote", "AddListItem"]
-RELOPS = ["AddFootnote", "AddListItem", "AddImage", "EditStyle", "ToBytes"]
+RELOPS = ["AddFootnote", "AddListItem", "AddImage", "AddImageFile", "EditStyle", "ToBytes"]   # sequential stages only (AddImageFile
+# shares a file between the documents: writing it from two goroutines at once would be the harness's own race)
 
 
 def consts(ndocs, ops, maxlen, depth):
